@@ -144,6 +144,54 @@ CHECKS["C14"] = (
     "DESIGN.md section 4 C14",
 )
 
+CHECKS.update({
+    "C03": (
+        "generator-computed expected tree (specification oracle) vs. the "
+        "loader's result for freely spelled, freely laid-out documents",
+        "Grammar-directed documents with every permitted spelling class "
+        "(signed/based integers in each radix and sign position, 8 real "
+        "forms, both quotes, unquoted, keywords in any case, dates/times, "
+        "nested sets/sequences, units, BEGIN_/plain block keywords in any "
+        "case, optional ';', optional end names, optional END) in every "
+        "context (top level, first/middle/last of sequences and sets, "
+        "quantity magnitude) x 5 parsers; the (spelling x context x parser) "
+        "matrix is in the evidence; failures are isolated per statement.",
+        "Expected values come from vlib/gen_text.py, which encodes the BNF; "
+        "ODL-family string content restricted to what spec and library "
+        "documentation agree on. One listed finding (sequence inside a set).",
+        "DESIGN.md section 4 C03, 3.3",
+    ),
+    "C04": (
+        "metamorphic monitor: one token list, plain layout vs. random "
+        "layouts; failing layouts minimised gap by gap",
+        "Each document is rendered with a plain layout and 4 random layouts "
+        "(empty separators where the grammar allows, spaces, tabs, LF, CRLF, "
+        "CR, FF, VT, runs, block comments with hostile bodies also adjacent "
+        "to tokens, '#' comments for ISIS/default); all must load to the "
+        "generator's tree; the (token, separator class, token) triples seen "
+        "are in the evidence.",
+        "Gap rules of DESIGN 3.3 (white space required after <units> and "
+        "between word-like tokens; Omni readers: no token ending in '-' before "
+        "a line break).",
+        "DESIGN.md section 4 C04",
+    ),
+    "C05": (
+        "token-level fault injection + reference recogniser as oracle + "
+        "oracle-free trace laws (lexer_fn proxy): '='-conservation and 'no "
+        "module after an error was thrown into the lexer'",
+        "Every position of each generated document is damaged once (delete, "
+        "duplicate, swap, replace incl. unterminated quote/units/comment, "
+        "truncate) plus sampled double/triple damage, x 5 parsers; ill-formed "
+        "lists must raise LexerError/ParseError, still-well-formed lists must "
+        "load to the recogniser's tree; every returning load is checked "
+        "against the two trace laws.",
+        "Recogniser = vlib/refmodel.py (ambiguity => no verdict, empty blocks "
+        "accepted, nothing after END read). One listed finding (OmniParser "
+        "unwinding).",
+        "DESIGN.md section 4 C05, 3.4, 3.5",
+    ),
+})
+
 NOT_YET = "check not built yet in this round (work in progress; see DESIGN.md section 8 build order)"
 
 ALL = [f"C{n:02d}" for n in range(1, 21)]
